@@ -278,6 +278,7 @@ type propRun struct {
 	extraViol   []violation
 	notes       []string
 	assumedSites []string
+	assumedPaths int // undischarged paths of obligations accepted as assumptions (not part of the claim)
 	witnesses    []map[string]any
 	selftest     map[string]any
 	unclaimed    int
@@ -412,6 +413,7 @@ func (run *propRun) report(id, tier string, seed int, start time.Time, update bo
 		}
 		if why, ok := assumedObs[a.Key]; ok {
 			run.assumedSites = append(run.assumedSites, a.Key+": "+why)
+			run.assumedPaths += n - okN
 			continue
 		}
 		inLedger := ledger == nil || func() bool { _, ok := ledger.Keys[a.Key]; return ok }()
@@ -458,6 +460,7 @@ func (run *propRun) report(id, tier string, seed int, start time.Time, update bo
 		}
 		if why, ok := assumedObs[o.Key]; ok {
 			run.assumedSites = append(run.assumedSites, o.Key+": "+why)
+			run.assumedPaths++
 			continue
 		}
 		viols = append(viols, violation{Key: o.Key, Detail: map[string]any{"obligation": o.Key, "kind": o.Kind, "position": o.Pos, "reason": o.Why}})
@@ -634,8 +637,8 @@ func (run *propRun) writeEvidence(id, tier string, seed int, start time.Time, to
 	// the level is the one claimed in MANIFEST.json; obligations that were never claimed (undischarged and outside
 	// the ledger) are reported separately and are not part of the claim
 	level := manifestLevel(id)
-	claimed := total - run.unclaimed
-	expl := fmt.Sprintf("%d of %d claimed obligations discharged deductively (SMT solvers / ownership-frame pass); %d further obligations were generated but are not claimed (listed under notes); known findings, assumed obligations and unsupported functions are listed in their own keys", discharged, claimed, run.unclaimed)
+	claimed := total - run.unclaimed - run.assumedPaths
+	expl := fmt.Sprintf("%d of %d claimed obligations discharged deductively (SMT solvers / ownership-frame pass); %d further obligations were generated but are not claimed (listed under notes) and %d are accepted as assumptions (listed under assumed_obligations and in the trusted base); known findings and unsupported functions are listed in their own keys", discharged, claimed, run.unclaimed, run.assumedPaths)
 	total = claimed
 	cov := map[string]any{
 		"obligations": total, "discharged": discharged,
